@@ -308,7 +308,9 @@ def load_image_band(filename,
         else:
             raise Exception(f"Too many NAXIS: {NAXIS}>4")
     if 'BSCALE' in header:
-        data *= header['BSCALE']
+        # not in place: an integer (BITPIX 8/16/32) image cannot hold the
+        # scaled values
+        data = data * header['BSCALE']
     # adjust the header to match the data shape
     header['NAXIS2'] = row_max-row_min
     header['CRPIX2'] -= row_min
